@@ -36,6 +36,10 @@ impl<'a> Ctx<'a> {
     }
 }
 
+/// An accepted tree in which the prefix `xml` names another namespace cannot be written back (the
+/// serializer spells the XML namespace `xml:`): consequence of accepting the rebinding.
+const XML_REBOUND: &str = "not-representable-xml-prefix-rebound";
+
 fn mode_word(fragment: bool) -> &'static str {
     if fragment {
         "frag"
@@ -98,6 +102,13 @@ pub fn case_mode(ctx: &mut Ctx, xml: &str, fragment: bool, ex: &Expect) {
                 ctx.fail("C17", &format!("error-span-outside-source-{}", err_variant(e)), "ParseError span outside [0, len]", entry, xml);
             }
             ctx.sink.stat(&format!("err.{}", err_variant(e)));
+            if let (Some(f), Some(r)) = (ex.fault, ex.rendered) {
+                if let Some(want) = fault_variant(f) {
+                    if expects_here(r) && err_variant(e) != want {
+                        ctx.fail("C03", &format!("fault-{}-rejected-as-{}", f, err_variant(e)), "an ill-formed text was rejected with another error than the one that names the fault", entry, xml);
+                    }
+                }
+            }
             if let Some(r) = ex.rendered {
                 if expects_here(r) && ex.fault.is_none() {
                     ctx.fail("C02", &format!("well-formed-spelling-rejected-{}", err_variant(e)), "a well-formed spelling was rejected", entry, xml);
@@ -109,6 +120,15 @@ pub fn case_mode(ctx: &mut Ctx, xml: &str, fragment: bool, ex: &Expect) {
                 if expects_here(r) {
                     ctx.fail("C03", &fault_signature(f), "an ill-formed text was accepted", entry, xml);
                 }
+            }
+            // namespace constraints the tokens show (whatever produced the input); recorded
+            // defects of xot, kept apart from `problems` so that the other oracles still run
+            let (reserved, undeclared, xml_rebound) = namespace_constraint_violations(&dump);
+            if reserved && ex.fault.is_none() {
+                ctx.fail("C03", "reserved-prefix-or-namespace-rebound-accepted", "accepted although a reserved prefix / namespace name is (re)bound (Namespaces in XML 1.0 section 3)", entry, xml);
+            }
+            if undeclared && ex.fault.is_none() {
+                ctx.fail("C03", "prefixed-undeclaration-accepted", "accepted although a prefix is declared with an empty namespace name (Namespaces in XML 1.0 section 3, NSC No Prefix Undeclaring)", entry, xml);
             }
             let mut problems = BTreeSet::new();
             let act = to_abstract(&vocab, &seen.tree, &mut problems);
@@ -146,7 +166,8 @@ pub fn case_mode(ctx: &mut Ctx, xml: &str, fragment: bool, ex: &Expect) {
                     Some(Err(e)) => {
                         let v = format!("{:?}", e);
                         let v = v.split('(').next().unwrap().to_string();
-                        ctx.fail("C03", &format!("accepted-tree-not-serialisable-{}", v), "to_string failed on a parsed tree", entry, xml)
+                        let sig = if xml_rebound { XML_REBOUND.to_string() } else { format!("accepted-tree-not-serialisable-{}", v) };
+                        ctx.fail("C03", &sig, "to_string failed on a parsed tree", entry, xml)
                     }
                     Some(Ok(s)) => {
                         let again = guarded(|| if fragment { xot.parse_fragment(&s) } else { xot.parse(&s) });
@@ -154,7 +175,9 @@ pub fn case_mode(ctx: &mut Ctx, xml: &str, fragment: bool, ex: &Expect) {
                             None => ctx.fail("C03", "reparse-panics", "reparsing the serialisation panicked", entry, xml),
                             Some(Err(e)) => {
                                 let raw_uri = vocab.namespaces.iter().any(|n| n.0.contains('"') || n.0.contains('<') || n.0.contains('&'));
-                                if raw_uri {
+                                if xml_rebound {
+                                    ctx.fail("C03", XML_REBOUND, "the serialisation of an accepted tree is rejected", entry, xml)
+                                } else if raw_uri {
                                     ctx.fail("C03", "serialisation-rejected-namespace-uri-written-raw", "the serialisation of an accepted tree is rejected", entry, xml)
                                 } else {
                                     ctx.fail("C03", &format!("serialisation-rejected-{}", err_variant(&e)), "the serialisation of an accepted tree is rejected", entry, xml)
@@ -164,7 +187,13 @@ pub fn case_mode(ctx: &mut Ctx, xml: &str, fragment: bool, ex: &Expect) {
                                 if !xot.deep_equal(doc, d2) {
                                     // an undecoded URI is escaped once more by the serializer
                                     let undecoded = vocab.namespaces.iter().any(|n| xot::verif_hooks::serialize_attribute(&n.0) != n.0);
-                                    let sig = if undecoded { "reparse-differs-namespace-uri-not-decoded" } else { "reparse-differs" };
+                                    let sig = if xml_rebound {
+                                        XML_REBOUND
+                                    } else if undecoded {
+                                        "reparse-differs-namespace-uri-not-decoded"
+                                    } else {
+                                        "reparse-differs"
+                                    };
                                     ctx.fail("C03", sig, "the serialisation reparses to a different tree", entry, xml);
                                 } else {
                                     ctx.sink.stat("reparse.equal");
@@ -194,6 +223,18 @@ pub fn case_mode(ctx: &mut Ctx, xml: &str, fragment: bool, ex: &Expect) {
                                 } else {
                                     c02.insert("xml-id-node-misses-id".into());
                                 }
+                            }
+                        }
+                    }
+                    if c02.contains("xml-id-not-fully-normalised") {
+                        // only the ids spelled with another prefix than `xml` are affected: another defect
+                        let mut bad = vec![];
+                        unnormalised_ids(&act, &mut bad);
+                        if !bad.is_empty() && bad.iter().all(|v| r.alias_ids.contains(v)) {
+                            c02.remove("xml-id-not-fully-normalised");
+                            c02.insert("xml-id-through-other-prefix-not-normalised".into());
+                            if c02.remove("xml-id-node-misses-partially-normalised-id") {
+                                c02.insert("xml-id-node-misses-id-written-through-other-prefix".into());
                             }
                         }
                     }
@@ -254,6 +295,15 @@ pub fn case_mode(ctx: &mut Ctx, xml: &str, fragment: bool, ex: &Expect) {
     }
 }
 
+/// The error variant a fault has to be rejected with, where the catalogue entry pins it down.
+fn fault_variant(fault: &str) -> Option<&'static str> {
+    match fault {
+        "end-tag-with-other-prefix" => Some("InvalidCloseTag"),
+        "duplicate-xml-id" | "duplicate-xml-id-after-normalisation" | "duplicate-xml-id-via-other-prefix" => Some("DuplicateId"),
+        _ => None,
+    }
+}
+
 /// One signature per root cause: an accepted fault is filed under the defect that lets it pass.
 fn fault_signature(fault: &str) -> String {
     if fault == "duplicate-attribute-by-expanded-name" {
@@ -266,6 +316,14 @@ fn fault_signature(fault: &str) -> String {
         "signed-character-reference-accepted".into()
     } else if fault == "duplicate-xml-id-after-normalisation" {
         "duplicate-xml-id-after-normalisation-accepted".into()
+    } else if fault == "end-tag-with-other-prefix" {
+        "end-tag-with-other-prefix-accepted".into()
+    } else if fault == "duplicate-xml-id-via-other-prefix" {
+        "duplicate-xml-id-via-other-prefix-accepted".into()
+    } else if fault == "reserved-prefix-or-namespace-rebound" {
+        "reserved-prefix-or-namespace-rebound-accepted".into()
+    } else if fault == "prefixed-undeclaration" {
+        "prefixed-undeclaration-accepted".into()
     } else if fault == "ill-formed-reference-in-namespace-declaration" {
         "ill-formed-namespace-declaration-value-accepted".into()
     } else {
@@ -322,6 +380,16 @@ pub const CORPUS: &[&str] = &[
     "t<a/>u",
     "<a xmlns='u'><b xmlns=''/></a>",
     "<?pi d?><a/><!--c-->",
+    "<p:a xmlns:p='u' xmlns:q='u'></q:a>",
+    "<a xmlns='u' xmlns:q='u'></q:a>",
+    "<q:a xmlns='u' xmlns:q='u'></a>",
+    "<a xmlns:p='http://www.w3.org/XML/1998/namespace' p:id='  x   y '/>",
+    "<a xmlns:p='http://www.w3.org/XML/1998/namespace' p:id=' x '><b xml:id='x'/></a>",
+    "<a xml:id='x'><b xmlns:p='http://www.w3.org/XML/1998/namespace' p:id=' x '/></a>",
+    "<a xmlns:xml='zzz'/>",
+    "<a xmlns:xmlns='zzz'/>",
+    "<a xmlns:p=''><p:b/></a>",
+    "<a xmlns:xml='http://www.w3.org/XML/1998/namespace' xml:id='i'/>",
 ];
 
 const SNIPPETS: &[&str] = &[
